@@ -12,6 +12,12 @@
 (*                  at the clock's own time w) | speed_in (v; zero-length    *)
 (*                  tween that starts w frames of audio time after the       *)
 (*                  command took effect - whether or not the clock ticks)    *)
+(*   cbstart        a callback has begun reading its commands                 *)
+(*   cmd stop_begin / stop_end   a stop() call seen as an interval (it is two *)
+(*                  command writes): if a callback begins, runs or ends      *)
+(*                  inside the interval, that callback and the next may each *)
+(*                  see the stop in parts; "stopping resets it to zero" is   *)
+(*                  checked once they have passed                            *)
 (*   sched id w     a sound was scheduled to start at clock time w (units)   *)
 (*   cb n t ticking fired    a callback of n frames ended; t = handle.time() *)
 (*                  in units, fired = <<id, frame>> pairs: sounds first      *)
@@ -32,6 +38,11 @@ PInit(b) ==
     sched |-> <<>>,          \* scheduled sounds: [id, w, fired]
     own |-> <<>>,            \* pending speed changes scheduled on the clock's own time: [v, w]
     ownUsed |-> FALSE,       \* such a change has been requested in this session
+    inCb |-> FALSE,
+    settled |-> FALSE,       \* the window has just passed: the clock must now be stopped at zero          \* between cbstart and cb
+    stopOpen |-> FALSE, stopRacy |-> FALSE,   \* a stop() call is in progress / a callback overlapped it
+    fuzzy |-> 0,             \* callbacks (still to come) whose time is not checked: a stop raced with the command reads
+    lost |-> FALSE,          \* another command arrived during that window: the reference time is no longer known
     frames |-> 0 ]           \* global frame counter
 
 \* chunk lengths of a callback of n frames with internal buffer b
@@ -85,6 +96,8 @@ Check(m, e) ==
              tEnd == IF w = <<>> THEN m1.ref ELSE w[Len(w)].t1
          IN
          IF e.panicked THEN "no_panic"
+         ELSE IF m.lost \/ m.fuzzy > 0 \/ m.stopOpen THEN ""
+         ELSE IF m.settled /\ m.pendTick = "none" /\ (e.t > 0 \/ e.ticking = 1) THEN "stopping_resets_to_zero"
          ELSE IF e.t # -1 /\ e.t \notin Boundaries(w) \cup {m1.ref} THEN      \* (-1: the handle could not be read just then)
               (IF m.ownUsed THEN "own_time_speed_change_takes_effect_when_due" ELSE "advances_by_speed_times_audio_time")
          ELSE IF e.ticking # -1 /\ (e.ticking = 1) # m1.ticking THEN "ticking_follows_commands"    \* (1 / 0 / -1 unknown)
@@ -103,7 +116,20 @@ Check(m, e) ==
     [] OTHER -> ""
 
 Upd(m, e) ==
-  CASE e.a = "cmd" ->
+  CASE e.a = "cbstart" -> [m EXCEPT !.inCb = TRUE, !.stopRacy = @ \/ m.stopOpen]
+    [] e.a = "cmd" /\ e.c = "stop_begin" ->
+         IF m.fuzzy > 0 \/ m.lost \/ m.stopOpen THEN [m EXCEPT !.lost = TRUE]
+         ELSE [m EXCEPT !.stopOpen = TRUE, !.stopRacy = m.inCb]
+    [] e.a = "cmd" /\ e.c = "stop_end" ->
+         IF ~m.stopOpen \/ m.lost THEN [m EXCEPT !.lost = TRUE]
+         ELSE IF m.stopRacy \/ m.inCb
+              \* the callback in progress (if any) and the next one are not checked
+              THEN [m EXCEPT !.stopOpen = FALSE, !.stopRacy = FALSE, !.fuzzy = IF m.inCb THEN 2 ELSE 1, !.held = {0}, !.lastRead = -1]
+              \* no callback overlapped the call: an ordinary stop
+              ELSE [m EXCEPT !.stopOpen = FALSE, !.pendTick = "off", !.pendReset = TRUE, !.held = {0}, !.lastRead = -1]
+    \* (any other command while a stop is in progress or its window is open: the reference is lost)
+    [] e.a = "cmd" /\ (m.stopOpen \/ m.fuzzy > 0) -> [m EXCEPT !.lost = TRUE]
+    [] e.a = "cmd" ->
          (CASE e.c = "start" -> [m EXCEPT !.pendTick = "on"]
             [] e.c = "pause" -> [m EXCEPT !.pendTick = "off"]
             [] e.c = "stop"  -> [m EXCEPT !.pendTick = "off", !.pendReset = TRUE, !.held = {0}, !.lastRead = -1]
@@ -116,7 +142,14 @@ Upd(m, e) ==
          LET m1 == AfterCmds(m)
              w == Walk(Chunks(e.n, m.b), 0, m1.ref, m1.speed, m1.ticking, m.own, m1.del)
              last == w[Len(w)]
-         IN [m1 EXCEPT !.ref = last.t1,
+         IN IF m.stopOpen THEN [m EXCEPT !.inCb = FALSE, !.frames = @ + e.n]
+            ELSE IF m.fuzzy > 0 \/ m.lost THEN
+              \* (when the window closes the clock is stopped at zero: stop = not ticking + reset)
+              [m1 EXCEPT !.fuzzy = IF m.fuzzy > 0 THEN m.fuzzy - 1 ELSE 0, !.inCb = FALSE, !.settled = (m.fuzzy = 1 /\ ~m.lost),
+                         !.ref = 0, !.ticking = FALSE, !.started = FALSE, !.held = {0},
+                         !.speed = last.spNext, !.del = last.delNext, !.frames = @ + e.n]
+            ELSE
+            [m1 EXCEPT !.ref = last.t1, !.inCb = FALSE, !.settled = FALSE,
                        !.speed = last.spNext, !.del = last.delNext,
                        !.own = SelectSeq(m.own, LAMBDA o : ~(\E k \in 1..Len(w) : w[k].tk /\ o.w <= w[k].t1)),
                        !.held = (IF m.pendReset THEN {0} ELSE m.held) \cup Boundaries(w),
